@@ -233,6 +233,8 @@ pub fn parse_filesize_exact(s: &str) -> Option<(u128, u128)> {
     }
 
     // digits beyond what any size needs change nothing (the value saturates, the fraction is cut)
+    // (what is cut off still counts as "a little more": 1.0000000000000000009k is no whole 1024)
+    let cut_off_more = frac_part.len() > 18 && frac_part[18..].bytes().any(|b| b != b'0');
     let frac_part = &frac_part[..frac_part.len().min(18)];
     let int_part = int_part.trim_start_matches('0');
     if int_part.len() > 20 {
@@ -242,6 +244,11 @@ pub fn parse_filesize_exact(s: &str) -> Option<(u128, u128)> {
     let denominator = 10u128.pow(frac_part.len() as u32);
     let int_value = if int_part.is_empty() { 0 } else { int_part.parse::<u128>().ok()? };
     let frac_value = if frac_part.is_empty() { 0 } else { frac_part.parse::<u128>().ok()? };
+    // (kept apart from the neighbouring 18-digit values by one more digit)
+    let (denominator, frac_value) = match cut_off_more {
+        true => (denominator * 10, frac_value * 10 + 1),
+        false => (denominator, frac_value),
+    };
 
     let numerator = int_value
         .checked_mul(denominator)
